@@ -807,6 +807,13 @@ func (bp *brokerProducer) run() {
 				continue
 			}
 
+			if msg.flags&fin == fin {
+				// a chaser that finds this broker producer not retrying its partition (the partition producer has
+				// already moved on to it): bounce it like the messages it chases, never buffer it as a message
+				bp.parent.retryMessage(msg, ErrShuttingDown)
+				continue
+			}
+
 			if bp.buffer.wouldOverflow(msg) {
 				Logger.Printf("producer/broker/%d maximum request accumulated, waiting for space\n", bp.broker.ID())
 				if err := bp.waitForSpace(msg, false); err != nil {
